@@ -53,19 +53,21 @@ func c09Case(g *Gen, m string, x *big.Int, K, T uint) {
 	// not be affected (no term may be shared storage)
 	var s dict.Sum
 	var d []*big.Int
+	var si *big.Int
 	if pn := safe(func() {
 		for _, t := range decomposer(m, K, T).Decompose(new(big.Int).Set(x)) {
 			c19scribble(t.D)
 		}
 		s = decomposer(m, K, T).Decompose(x)
 		d = s.Dictionary()
+		si = s.Int()
 	}); pn != "" {
 		if !g.notesViolation() {
 			g.Notes = append(g.Notes, fmt.Sprintf("VIOLATION: %s decomposition (K=%d, T=%d) of %v panics: %s", m, K, T, before, pn))
 		}
 		return
 	}
-	g.Line("c09", m, before.String(), fmt.Sprint(K), fmt.Sprint(T), encTerms(s), encInts(d), b01(before.Cmp(x) == 0))
+	g.Line("c09", m, before.String(), fmt.Sprint(K), fmt.Sprint(T), encTerms(s), encInts(d), b01(before.Cmp(x) == 0), si.String())
 	g.Count("m=" + m)
 }
 
